@@ -182,6 +182,7 @@ ADDED3 = {
  "C13": " Round 7: wide expressions -- 66 / 130 bracketed constructs of every kind (IN lists, calls, subscripts, casts, CASE, parenthesised operands) in one statement, a parenthesised operand after 64-70 IN lists.",
  "C14": " Round 7: integer literals at and beyond the 64-bit range (2^63 - 1, 2^63, 2^63 + 1, 2^64 - 1, 2^64, 10^19) in twelve numeric positions of queries and definitions.",
  "C15": ENGINE_R7 + " ErrAggMenu and OrderLimitMenu (LIMIT next to HAVING / DISTINCT) under PermLaw: the same table or the same error for every order of the lines.",
+ "C17": " Round 8: Trace_Printer.tla (impl -> spec): random results -- any 64-bit integer, any finite or non-finite REAL, TEXT with control characters / quotes / delimiters, arrays, timestamps within the same second as the one printed before, intervals, 1-3 print() calls -- replayed through Printer.tla's own PrintResult action; JSON numbers are read from their lexemes with a correctly rounded parser and compared exactly (2^63 written as 9223372036854775807 is another number).",
  "C18": ENGINE_R7,
  "C20": " Round 7: whitespace beyond ASCII between tokens (VT, FF, NO-BREAK SPACE, NEL, LINE SEPARATOR, IDEOGRAPHIC SPACE, EM SPACE).",
 }
